@@ -55,10 +55,13 @@ func zzOpenNodeNoRaft(st *models.MemStore) *RaftNode {
 var noRaft bool
 
 // commit appends an entry with m fresh events to the replicated log and applies it on every live replica.
-func (g *zzGroup) commit(tag byte, m int) {
+func (g *zzGroup) commit(tag byte, m int) { g.commitEvents(zzEvents(tag, m)) }
+
+// commitEvents appends an entry with the given events to the replicated log and applies it on every live replica.
+func (g *zzGroup) commitEvents(events [][]byte) {
 	var hs []hashing.Digest
 	h := models.EventHasherF(zzBits)()
-	for _, e := range zzEvents(tag, m) {
+	for _, e := range events {
 		hs = append(hs, h.Do(e))
 	}
 	cmd := newCommand(addEventCommandType)
@@ -153,6 +156,16 @@ func ZZC08Restart() {
 			rt.Assert(st.OpenReaders == 0, "no-reader-left-open")
 			g.reopen(1)
 			rt.Reach("reopened")
+			// Raft re-delivers its log after a restart, from some index not above the last applied + 1
+			from := rt.Choose("replay-from", len(g.log)+1)
+			before := g.nodes[1].balloon.Version()
+			for r := from; r < len(g.log); r++ {
+				ent := g.log[r]
+				if !rt.NoPanic(func() { g.apply(1, ent) }, "log-replay-after-restart") {
+					return
+				}
+			}
+			rt.Assert(g.nodes[1].balloon.Version() == before, "log-replay-after-restart-changes-nothing")
 		}
 		if k == n {
 			break
@@ -340,7 +353,19 @@ func ZZC09Transfer() {
 		if k == i {
 			g.down[1] = true // down from here on; the log is compacted meanwhile, so replay is impossible
 		}
-		g.commit(byte(0x10+k), 1+rt.Choose(fmt.Sprintf("bulk%d", k), rt.Param("BULK", 2)))
+		m := 1 + rt.Choose(fmt.Sprintf("bulk%d", k), rt.Param("BULK", 2))
+		if k >= i && k > 0 && rt.Choose(fmt.Sprintf("near%d", k), 2) == 1 {
+			// events added while the follower is away that are neighbours of the very first event:
+			// same 20 leading digest bits, so they rewrite hyper-cache tiles the follower holds
+			var evs [][]byte
+			for e := 0; e < m; e++ {
+				evs = append(evs, []byte{0x10, 0, byte(1 + 2*k + e)}) // third digest byte 0x01..0x0f: bits 20..23 differ
+			}
+			g.commitEvents(evs)
+			rt.Reach("neighbour-events-during-downtime")
+			continue
+		}
+		g.commit(byte(0x10+k), m)
 	}
 	var err error
 	ok := rt.NoPanic(func() { err = zzRestore(g.nodes[1], g.nodes[0]) }, "restore")
